@@ -134,10 +134,14 @@ impl Workload {
 
 #[derive(Clone, Debug)]
 pub struct RunRef {
-    /// every rule entry (rule, position) of the plain parse, in order
+    /// every rule entry (rule, position) of the parse, in order — computed by the independent
+    /// reference interpreter (`refinterp`), not by the VM's listener
     pub entries: Vec<(String, usize)>,
     /// Debug rendering of the final event a correct debugger must deliver
     pub final_payload: String,
+    /// Some(description) when the VM's own listener reports a different entry sequence (or a
+    /// different success/failure) than the reference interpreter
+    pub vm_disagrees: Option<String>,
 }
 
 pub const REF_CALL_LIMIT: usize = 40_000;
@@ -178,9 +182,33 @@ pub fn reference_run(rules: &[OptimizedRule], rule: &str, input: &str) -> Option
     };
     pest::set_call_limit(None);
     assert_eq!(ev, ev2, "harness: recording listener changed the parse outcome");
+    // independent meaning of "the entries of the parse"
+    let rp = crate::refinterp::reference_parse(rules, rule, input, 4 * REF_CALL_LIMIT as u64 + 10_000)?;
+    let mut vm_disagrees = None;
+    if rp.success != matches!(ev, DebuggerEvent::Eof) {
+        vm_disagrees = Some(format!(
+            "reference interpreter says the parse {} but the VM reports {ev:?}",
+            if rp.success { "succeeds" } else { "fails" }
+        ));
+    } else if rp.entries != entries {
+        let i = rp
+            .entries
+            .iter()
+            .zip(entries.iter())
+            .position(|(a, b)| a != b)
+            .unwrap_or(rp.entries.len().min(entries.len()));
+        vm_disagrees = Some(format!(
+            "rule entry #{i}: reference interpreter {:?}, VM listener {:?} ({} vs {} entries)",
+            rp.entries.get(i),
+            entries.get(i),
+            rp.entries.len(),
+            entries.len()
+        ));
+    }
     Some(RunRef {
-        entries,
+        entries: rp.entries,
         final_payload: format!("{ev:?}"),
+        vm_disagrees,
     })
 }
 
@@ -641,6 +669,13 @@ pub fn check_history(
                             return Some(viol("harness", "more runs than references".into(), seq));
                         }
                         precondition_ok = true;
+                        if let Some(d) = &refs[idx].vm_disagrees {
+                            flag!(viol(
+                                "sequence-mismatch",
+                                format!("the rule entries reported to the listener are not the entries of the parse: {d}"),
+                                seq
+                            ));
+                        }
                         if let Some(prev) = runs.last() {
                             probes.restarts += 1;
                             if prev.sent_total != prev.recvd_total {
